@@ -288,11 +288,24 @@ func (app *App) addPrefixToRoute(prefix string, route *Route) *Route {
 	route.path = RemoveEscapeChar(prettyPath)
 	route.routeParser = parseRoute(prettyPath, app.customConstraints...)
 	// the prefix may bring parameters of its own
-	route.Params = parseRoute(prefixedPath, app.customConstraints...).params
+	parsedRaw := parseRoute(prefixedPath, app.customConstraints...)
+	useRawConstraints(&route.routeParser, &parsedRaw)
+	route.Params = parsedRaw.params
 	route.root = route.path == "/"
 	route.star = prettyPath == "/*"
 
 	return route
+}
+
+// useRawConstraints gives the parameters of the normalised (lower-cased) pattern the
+// constraints as they were written: regular expressions, datetime layouts and the names of
+// custom constraints are case-sensitive data, only the literal parts of a pattern are folded.
+func useRawConstraints(pretty, raw *routeParser) {
+	for i, seg := range pretty.segs {
+		if seg.IsParam && i < len(raw.segs) && raw.segs[i].IsParam {
+			seg.Constraints = raw.segs[i].Constraints
+		}
+	}
 }
 
 func (*App) copyRoute(route *Route) *Route {
@@ -349,6 +362,7 @@ func (app *App) register(methods []string, pathRaw string, group *Group, handler
 
 	parsedRaw := parseRoute(pathRaw, app.customConstraints...)
 	parsedPretty := parseRoute(pathPretty, app.customConstraints...)
+	useRawConstraints(&parsedPretty, &parsedRaw)
 
 	isMount := group != nil && group.app != app
 
